@@ -1,6 +1,7 @@
 package component
 
 import (
+	"errors"
 	"io"
 
 	pk "github.com/Tnze/go-mc/net/packet"
@@ -21,7 +22,7 @@ func (PotionContents) ID() string {
 
 // ReadFrom implements DataComponent.
 func (p *PotionContents) ReadFrom(r io.Reader) (n int64, err error) {
-	panic("unimplemented")
+	return 0, errors.New("component: ReadFrom is not implemented")
 }
 
 // WriteTo implements DataComponent.
